@@ -9,6 +9,8 @@
 #include <ctime>
 #include <cstdlib>
 #include <cstring>
+#include <string>
+#include <unordered_map>
 
 namespace mcenv {
 
@@ -18,6 +20,7 @@ bool sleep_advances = true;
 std::function<void(unsigned)> on_sleep;
 bool select_zero_timeout = true;
 unsigned long kdf_iter_clamp = 0;
+bool hash_cache = false;
 
 uint64_t splitmix(uint64_t &x)
 {
@@ -118,6 +121,32 @@ int select(int nfds, fd_set *r, fd_set *w, fd_set *e, struct timeval *tv)
 		return real(nfds, r, w, e, &z);
 	}
 	return real(nfds, r, w, e, tv);
+}
+
+// gcry_md_hash_buffer is a pure function of (algo, input).  Replay-based exploration hashes the same few tags millions
+// of times (tmcg_g makes 16 digest calls per value), so drivers may switch on a transparent memo cache.
+void gcry_md_hash_buffer(int algo, void *digest, const void *buffer, size_t length)
+{
+	typedef void (*hb_t)(int, void *, const void *, size_t);
+	static hb_t real = (hb_t)dlsym(RTLD_NEXT, "gcry_md_hash_buffer");
+	if (!mcenv::hash_cache || length > 512)
+	{
+		real(algo, digest, buffer, length);
+		return;
+	}
+	static thread_local std::unordered_map<std::string, std::string> *cache = nullptr;
+	if (!cache) cache = new std::unordered_map<std::string, std::string>();
+	std::string key((const char *)buffer, length);
+	key.push_back((char)(algo & 0xff)), key.push_back((char)((algo >> 8) & 0xff));
+	std::unordered_map<std::string, std::string>::iterator it = cache->find(key);
+	unsigned int dl = gcry_md_get_algo_dlen(algo);
+	if (it == cache->end())
+	{
+		real(algo, digest, buffer, length);
+		if (cache->size() < 2000000) (*cache)[key] = std::string((const char *)digest, dl);
+		return;
+	}
+	memcpy(digest, it->second.data(), dl);
 }
 
 gpg_error_t gcry_kdf_derive(const void *passphrase, size_t passphraselen, int algo, int subalgo,
